@@ -553,7 +553,17 @@ impl<'a> Parser<'a> {
         let type_parameters = self.parse_optional_type_parameters()?;
         let params: Rc<[_]> = self.parse_function_params()?.into();
         let return_type = self.parse_optional_return_type()?;
-        let body = Rc::new(self.parse_block_statement()?);
+        // Overload signature `function f(x: T): R;` - the implementation that must follow
+        // replaces it, so an empty body stands in
+        let body = if self.check(&TokenKind::Semicolon) && id.is_some() {
+            self.advance();
+            Rc::new(BlockStatement {
+                body: Rc::from([]),
+                span: self.span_from(start),
+            })
+        } else {
+            Rc::new(self.parse_block_statement()?)
+        };
 
         let span = self.span_from(start);
         Ok(FunctionDeclaration {
@@ -710,7 +720,12 @@ impl<'a> Parser<'a> {
         let type_parameters = self.parse_optional_type_parameters()?;
 
         let super_class = if self.match_token(&TokenKind::Extends) {
-            Some(Rc::new(self.parse_left_hand_side_expression()?))
+            let heritage = self.parse_left_hand_side_expression()?;
+            // Type arguments of the base class: extends Base<T>
+            if self.check(&TokenKind::Lt) {
+                self.parse_type_arguments()?;
+            }
+            Some(Rc::new(heritage))
         } else {
             None
         };
@@ -823,6 +838,10 @@ impl<'a> Parser<'a> {
         if !static_ && self.check_keyword("constructor") {
             self.advance();
             let params = self.parse_function_params()?;
+            // Overload signature: constructor(a: string);
+            if self.match_token(&TokenKind::Semicolon) {
+                return Ok(None);
+            }
             let body = self.parse_block_statement()?;
             let span = self.span_from(start);
             return Ok(Some(ClassMember::Constructor(Box::new(ClassConstructor {
@@ -844,6 +863,28 @@ impl<'a> Parser<'a> {
             MethodKind::Method
         };
 
+        // Index signature `[k: string]: T;` declares a shape only
+        if self.check(&TokenKind::LBracket) {
+            let checkpoint = self.lexer.checkpoint();
+            let saved_current = self.current.clone();
+            let saved_previous = self.previous.clone();
+            self.advance();
+            let is_index_signature = self.check_identifier() && self.peek_is(&TokenKind::Colon);
+            if is_index_signature {
+                self.advance();
+                self.advance();
+                self.parse_type_annotation()?;
+                self.require_token(&TokenKind::RBracket)?;
+                self.require_token(&TokenKind::Colon)?;
+                self.parse_type_annotation()?;
+                self.expect_semicolon()?;
+                return Ok(None);
+            }
+            self.lexer.restore(checkpoint);
+            self.current = saved_current;
+            self.previous = saved_previous;
+        }
+
         let (key, computed) = self.parse_class_element_name()?;
 
         // Method or property?
@@ -853,9 +894,13 @@ impl<'a> Parser<'a> {
             let params: Rc<[_]> = self.parse_function_params()?.into();
             let return_type = self.parse_optional_return_type()?;
 
-            // Abstract methods have no body - just a semicolon - and are not emitted
+            // Abstract methods have no body - just a semicolon - and are not emitted; neither
+            // are overload signatures
             if is_abstract {
                 self.expect_semicolon()?;
+                return Ok(None);
+            }
+            if self.match_token(&TokenKind::Semicolon) {
                 return Ok(None);
             }
             let body = Rc::new(self.parse_block_statement()?);
@@ -1567,6 +1612,14 @@ impl<'a> Parser<'a> {
                 // declare global { ... }
                 self.parse_ambient_global_declaration()?;
             }
+            TokenKind::Type => {
+                // declare type T = ...;
+                self.parse_type_alias()?;
+            }
+            TokenKind::Interface => {
+                // declare interface I { ... }
+                self.parse_interface()?;
+            }
             _ => {
                 return Err(JsError::syntax_error(
                     format!(
@@ -2008,11 +2061,13 @@ impl<'a> Parser<'a> {
                     imported.clone()
                 };
                 let span = self.span_from(spec_start);
-                specifiers.push(ImportSpecifier::Named {
-                    local,
-                    imported,
-                    span,
-                });
+                if !inline_type {
+                    specifiers.push(ImportSpecifier::Named {
+                        local,
+                        imported,
+                        span,
+                    });
+                }
 
                 if !self.match_token(&TokenKind::Comma) {
                     break;
@@ -2483,6 +2538,10 @@ impl<'a> Parser<'a> {
         // TypeScript angle bracket type assertion: <Type>value
         // Must check for < and distinguish from comparison or generics
         if self.check(&TokenKind::Lt) {
+            // Generic arrow function: <T, U extends V = W>(x: T) => ...
+            if let Some(expr) = self.try_parse_generic_arrow_function()? {
+                return Ok(expr);
+            }
             // Try to parse as type assertion <Type>expr
             if let Some(expr) = self.try_parse_angle_bracket_assertion()? {
                 return Ok(expr);
@@ -2490,6 +2549,25 @@ impl<'a> Parser<'a> {
         }
 
         self.parse_postfix_expression()
+    }
+
+    /// Try to parse `<T, ...>(params) => body`: a type parameter list followed by an arrow
+    /// function. Returns None (position restored) for anything else.
+    fn try_parse_generic_arrow_function(&mut self) -> Result<Option<Expression>, JsError> {
+        let saved_current = self.current.clone();
+        let saved_previous = self.previous.clone();
+        let checkpoint = self.lexer.checkpoint();
+        if self.parse_optional_type_parameters().is_ok()
+            && self.check(&TokenKind::LParen)
+            && let Ok(expr) = self.parse_assignment_expression()
+            && matches!(expr, Expression::ArrowFunction(_))
+        {
+            return Ok(Some(expr));
+        }
+        self.current = saved_current;
+        self.previous = saved_previous;
+        self.lexer.restore(checkpoint);
+        Ok(None)
     }
 
     /// Try to parse a TypeScript angle-bracket type assertion: <Type>expression
@@ -3225,8 +3303,8 @@ impl<'a> Parser<'a> {
                     let type_checkpoint = self.lexer.checkpoint();
                     let type_saved_current = self.current.clone();
 
-                    self.advance(); // consume ':'
-                    if let Ok(_type_ann) = self.parse_type_annotation()
+                    // (the return type may be a predicate: `x is T`, `asserts x`)
+                    if let Ok(_type_ann) = self.parse_optional_return_type()
                         && self.check(&TokenKind::Arrow)
                     {
                         // Restore and let parse_arrow_function_from_params handle it
@@ -3247,8 +3325,7 @@ impl<'a> Parser<'a> {
                 let type_checkpoint = self.lexer.checkpoint();
                 let type_saved_current = self.current.clone();
 
-                self.advance(); // consume ':'
-                if let Ok(_type_ann) = self.parse_type_annotation()
+                if let Ok(_type_ann) = self.parse_optional_return_type()
                     && self.check(&TokenKind::Arrow)
                 {
                     // Restore and let parse_arrow_function_from_params handle it
@@ -3903,7 +3980,98 @@ impl<'a> Parser<'a> {
         }))
     }
 
+    /// A primary type with its prefix operators (`readonly T[]`, `-1`, `abstract new () => T`,
+    /// `<U>(x: U) => U`, `import("m").T`, `this`) and postfix `[]` / `[K]`
     fn parse_primary_type(&mut self) -> Result<TypeAnnotation, JsError> {
+        let start = self.current.span;
+        let keyword_any = |span| {
+            TypeAnnotation::Keyword(TypeKeyword {
+                keyword: TypeKeywordKind::Any,
+                span,
+            })
+        };
+        let unique_symbol = self.check_keyword("unique")
+            && self.peek_is(&TokenKind::Identifier(JsString::from("symbol")));
+        let abstract_new = self.check(&TokenKind::Abstract) && self.peek_is(&TokenKind::New);
+        let mut ty = match &self.current.kind {
+            // Type operators that leave nothing at run time: readonly T[], unique symbol
+            TokenKind::Readonly => {
+                self.advance();
+                return self.parse_primary_type();
+            }
+            TokenKind::Identifier(_) if unique_symbol => {
+                self.advance();
+                return self.parse_primary_type();
+            }
+            // Negative literal types: -1, -2n
+            TokenKind::Minus => {
+                self.advance();
+                if matches!(self.current.kind, TokenKind::BigInt(_)) {
+                    self.advance();
+                    keyword_any(self.span_from(start))
+                } else {
+                    self.parse_primary_type_operand()?
+                }
+            }
+            TokenKind::BigInt(_) => {
+                self.advance();
+                keyword_any(self.span_from(start))
+            }
+            // abstract new (...) => T
+            TokenKind::Abstract if abstract_new => {
+                self.advance();
+                self.parse_primary_type_operand()?
+            }
+            // Generic function type: <U>(x: U) => U
+            TokenKind::Lt => {
+                self.parse_optional_type_parameters()?;
+                self.try_parse_function_type()?
+            }
+            // Import type: import("./m").T<U>
+            TokenKind::Import => {
+                self.advance();
+                self.require_token(&TokenKind::LParen)?;
+                self.parse_string_literal()?;
+                self.require_token(&TokenKind::RParen)?;
+                while self.match_token(&TokenKind::Dot) {
+                    self.parse_identifier()?;
+                }
+                if self.check(&TokenKind::Lt) {
+                    self.parse_type_arguments()?;
+                }
+                keyword_any(self.span_from(start))
+            }
+            // Polymorphic this type
+            TokenKind::This => {
+                self.advance();
+                keyword_any(self.span_from(start))
+            }
+            _ => self.parse_primary_type_operand()?,
+        };
+
+        // Array shorthand T[] and indexed access T[K] (on the same line: a `[` that starts the
+        // next line is not part of the type)
+        while self.check(&TokenKind::LBracket) && !self.lexer.had_newline_before() {
+            self.advance();
+            if self.match_token(&TokenKind::RBracket) {
+                ty = TypeAnnotation::Array(ArrayType {
+                    element_type: Box::new(ty),
+                    span: self.span_from(start),
+                });
+            } else {
+                let index_type = self.parse_type_annotation()?;
+                self.require_token(&TokenKind::RBracket)?;
+                ty = TypeAnnotation::Indexed(IndexedAccessType {
+                    object_type: Box::new(ty),
+                    index_type: Box::new(index_type),
+                    span: self.span_from(start),
+                });
+            }
+        }
+        Ok(ty)
+    }
+
+    fn parse_primary_type_operand(&mut self) -> Result<TypeAnnotation, JsError> {
         let start = self.current.span;
 
         match &self.current.kind {
@@ -3963,87 +4131,42 @@ impl<'a> Parser<'a> {
             // Type keywords
             TokenKind::Any => {
                 self.advance();
-                let mut ty = TypeAnnotation::Keyword(TypeKeyword {
+                let ty = TypeAnnotation::Keyword(TypeKeyword {
                     keyword: TypeKeywordKind::Any,
                     span: self.span_from(start),
                 });
-                // Array shorthand: any[]
-                while self.check(&TokenKind::LBracket) {
-                    self.advance();
-                    self.require_token(&TokenKind::RBracket)?;
-                    ty = TypeAnnotation::Array(ArrayType {
-                        element_type: Box::new(ty),
-                        span: self.span_from(start),
-                    });
-                }
                 Ok(ty)
             }
             TokenKind::Unknown => {
                 self.advance();
-                let mut ty = TypeAnnotation::Keyword(TypeKeyword {
+                let ty = TypeAnnotation::Keyword(TypeKeyword {
                     keyword: TypeKeywordKind::Unknown,
                     span: self.span_from(start),
                 });
-                // Array shorthand: unknown[]
-                while self.check(&TokenKind::LBracket) {
-                    self.advance();
-                    self.require_token(&TokenKind::RBracket)?;
-                    ty = TypeAnnotation::Array(ArrayType {
-                        element_type: Box::new(ty),
-                        span: self.span_from(start),
-                    });
-                }
                 Ok(ty)
             }
             TokenKind::Never => {
                 self.advance();
-                let mut ty = TypeAnnotation::Keyword(TypeKeyword {
+                let ty = TypeAnnotation::Keyword(TypeKeyword {
                     keyword: TypeKeywordKind::Never,
                     span: self.span_from(start),
                 });
-                // Array shorthand: never[]
-                while self.check(&TokenKind::LBracket) {
-                    self.advance();
-                    self.require_token(&TokenKind::RBracket)?;
-                    ty = TypeAnnotation::Array(ArrayType {
-                        element_type: Box::new(ty),
-                        span: self.span_from(start),
-                    });
-                }
                 Ok(ty)
             }
             TokenKind::Void => {
                 self.advance();
-                let mut ty = TypeAnnotation::Keyword(TypeKeyword {
+                let ty = TypeAnnotation::Keyword(TypeKeyword {
                     keyword: TypeKeywordKind::Void,
                     span: self.span_from(start),
                 });
-                // Array shorthand: void[]
-                while self.check(&TokenKind::LBracket) {
-                    self.advance();
-                    self.require_token(&TokenKind::RBracket)?;
-                    ty = TypeAnnotation::Array(ArrayType {
-                        element_type: Box::new(ty),
-                        span: self.span_from(start),
-                    });
-                }
                 Ok(ty)
             }
             TokenKind::Null => {
                 self.advance();
-                let mut ty = TypeAnnotation::Keyword(TypeKeyword {
+                let ty = TypeAnnotation::Keyword(TypeKeyword {
                     keyword: TypeKeywordKind::Null,
                     span: self.span_from(start),
                 });
-                // Array shorthand: null[]
-                while self.check(&TokenKind::LBracket) {
-                    self.advance();
-                    self.require_token(&TokenKind::RBracket)?;
-                    ty = TypeAnnotation::Array(ArrayType {
-                        element_type: Box::new(ty),
-                        span: self.span_from(start),
-                    });
-                }
                 Ok(ty)
             }
 
@@ -4062,20 +4185,10 @@ impl<'a> Parser<'a> {
 
                 if let Some(kw) = keyword {
                     self.advance();
-                    let mut ty = TypeAnnotation::Keyword(TypeKeyword {
+                    let ty = TypeAnnotation::Keyword(TypeKeyword {
                         keyword: kw,
                         span: self.span_from(start),
                     });
-
-                    // Array shorthand: string[]
-                    while self.check(&TokenKind::LBracket) {
-                        self.advance();
-                        self.require_token(&TokenKind::RBracket)?;
-                        ty = TypeAnnotation::Array(ArrayType {
-                            element_type: Box::new(ty),
-                            span: self.span_from(start),
-                        });
-                    }
 
                     Ok(ty)
                 } else {
@@ -4115,7 +4228,11 @@ impl<'a> Parser<'a> {
                 // Check for mapped type: { [P in keyof T]: T[P] }
                 // vs index signature: { [key: string]: T }
                 // We need to detect: { [ident in ...]
-                if self.check(&TokenKind::Readonly) || self.check(&TokenKind::LBracket) {
+                if self.check(&TokenKind::Readonly)
+                    || self.check(&TokenKind::LBracket)
+                    || self.check(&TokenKind::Plus)
+                    || self.check(&TokenKind::Minus)
+                {
                     // Try to parse as mapped type
                     if let Some(mapped) = self.try_parse_mapped_type(start)? {
                         return Ok(mapped);
@@ -4124,20 +4241,10 @@ impl<'a> Parser<'a> {
 
                 let members = self.parse_type_members()?;
                 self.require_token(&TokenKind::RBrace)?;
-                let mut ty = TypeAnnotation::Object(ObjectType {
+                let ty = TypeAnnotation::Object(ObjectType {
                     members,
                     span: self.span_from(start),
                 });
-
-                // Array shorthand: { a: number }[]
-                while self.check(&TokenKind::LBracket) {
-                    self.advance();
-                    self.require_token(&TokenKind::RBracket)?;
-                    ty = TypeAnnotation::Array(ArrayType {
-                        element_type: Box::new(ty),
-                        span: self.span_from(start),
-                    });
-                }
 
                 Ok(ty)
             }
@@ -4147,31 +4254,43 @@ impl<'a> Parser<'a> {
                 self.advance();
                 let mut types = vec![];
                 while !self.check(&TokenKind::RBracket) && !self.is_at_end() {
+                    // Rest element: ...T[] / ...name: T[]
+                    self.match_token(&TokenKind::DotDotDot);
+                    // Named member: name: T / name?: T
+                    if self.check_identifier() || self.is_keyword_kind(&self.current.kind) {
+                        let checkpoint = self.lexer.checkpoint();
+                        let saved_current = self.current.clone();
+                        let saved_previous = self.previous.clone();
+                        self.advance();
+                        self.match_token(&TokenKind::Question);
+                        if !self.match_token(&TokenKind::Colon) {
+                            self.lexer.restore(checkpoint);
+                            self.current = saved_current;
+                            self.previous = saved_previous;
+                        }
+                    }
                     types.push(self.parse_type_annotation()?);
+                    // Optional element: T?
+                    self.match_token(&TokenKind::Question);
                     if !self.match_token(&TokenKind::Comma) {
                         break;
                     }
                 }
                 self.require_token(&TokenKind::RBracket)?;
-                let mut ty = TypeAnnotation::Tuple(TupleType {
+                let ty = TypeAnnotation::Tuple(TupleType {
                     element_types: types,
                     span: self.span_from(start),
                 });
-                // Array shorthand: [string, number][]
-                while self.check(&TokenKind::LBracket) {
-                    self.advance();
-                    self.require_token(&TokenKind::RBracket)?;
-                    ty = TypeAnnotation::Array(ArrayType {
-                        element_type: Box::new(ty),
-                        span: self.span_from(start),
-                    });
-                }
                 Ok(ty)
             }
 
             // Constructor type: new (...args: any[]) => T
             TokenKind::New => {
                 self.advance();
+                // Generic constructor type: new <T>(x: T) => T
+                if self.check(&TokenKind::Lt) {
+                    self.parse_optional_type_parameters()?;
+                }
                 // Parse as function type, the 'new' prefix just marks it as a constructor
                 // For our runtime purposes, we just parse and discard the type annotation
                 let func_type = self.try_parse_function_type()?;
@@ -4188,17 +4307,7 @@ impl<'a> Parser<'a> {
                 self.advance();
                 let inner_ty = self.parse_type_annotation()?;
                 self.require_token(&TokenKind::RParen)?;
-                let mut ty = TypeAnnotation::Parenthesized(Box::new(inner_ty));
-
-                // Array shorthand: (number | undefined)[]
-                while self.check(&TokenKind::LBracket) {
-                    self.advance();
-                    self.require_token(&TokenKind::RBracket)?;
-                    ty = TypeAnnotation::Array(ArrayType {
-                        element_type: Box::new(ty),
-                        span: self.span_from(start),
-                    });
-                }
+                let ty = TypeAnnotation::Parenthesized(Box::new(inner_ty));
 
                 Ok(ty)
             }
@@ -4239,6 +4348,10 @@ impl<'a> Parser<'a> {
             TokenKind::Typeof => {
                 self.advance();
                 let id = self.parse_identifier()?;
+                // Qualified name: typeof a.b.c
+                while self.match_token(&TokenKind::Dot) {
+                    self.parse_identifier()?;
+                }
                 Ok(TypeAnnotation::Typeof(TypeofType {
                     expression: id,
                     span: self.span_from(start),
@@ -4551,6 +4664,28 @@ impl<'a> Parser<'a> {
             let start = self.current.span;
             let readonly = self.match_token(&TokenKind::Readonly);
 
+            // Call signature `(x: T): R` / `<U>(x: U): U` and construct signature `new (x: T): R`:
+            // they describe the value's own callability and contribute no member
+            let construct = self.check(&TokenKind::New)
+                && (self.peek_is(&TokenKind::LParen) || self.peek_is(&TokenKind::Lt));
+            if construct || self.check(&TokenKind::LParen) || self.check(&TokenKind::Lt) {
+                if construct {
+                    self.advance();
+                }
+                self.parse_optional_type_parameters()?;
+                self.parse_function_params()?;
+                self.parse_optional_return_type()?;
+                self.match_token(&TokenKind::Semicolon);
+                self.match_token(&TokenKind::Comma);
+                continue;
+            }
+            // Accessor signatures: get x(): T / set x(v: T)
+            if (self.check_keyword("get") || self.check_keyword("set"))
+                && self.peek_starts_member_name()
+            {
+                self.advance();
+            }
+
             // Check for index signature: [key: type]: valueType
             if self.check(&TokenKind::LBracket) {
                 self.advance(); // consume [
@@ -4627,6 +4762,12 @@ impl<'a> Parser<'a> {
 
         while !self.check(&TokenKind::Gt) && !self.is_at_end() {
             let param_start = self.current.span;
+            // Modifiers: const T, in T, out T, in out T
+            self.match_token(&TokenKind::Const);
+            self.match_token(&TokenKind::In);
+            if self.check_keyword("out") && self.peek_starts_member_name() {
+                self.advance();
+            }
             let name = self.parse_identifier()?;
 
             let constraint = if self.match_token(&TokenKind::Extends) {
@@ -4716,6 +4857,12 @@ impl<'a> Parser<'a> {
 
             // Check for type predicate: param is Type
             // This is an identifier followed by 'is' keyword
+            if self.check(&TokenKind::This) && self.peek_is(&TokenKind::Is) {
+                // `this is T`
+                self.advance();
+                self.advance();
+                return Ok(Some(Box::new(self.parse_type_annotation()?)));
+            }
             if self.check_identifier() && self.peek_is(&TokenKind::Is) {
                 let start = self.current.span;
                 let param_name = self.parse_identifier()?;
